@@ -27,7 +27,7 @@ ASSUMPTIONS = [
 ]
 REQUIRED = {"table.triples": 44982, "table.bondtypes": 15, "roundtrip.Molecule": 100, "roundtrip.Structure": 50,
             "roundtrip.ConformerEnsemble": 50, "fixedpoint.text": 200, "bundled.files": 5,
-            "read.again-after-editing-first-result": 50, "source.atoms-lent-to-another-structure": 20}
+            "read.again-after-editing-first-result": 50, "library-trip.type-tokens-compared": 40, "source.atoms-lent-to-another-structure": 20}
 EXHAUSTIVE = False
 CHUNK_TIMEOUT = 900
 TECHNIQUE = "runtime monitoring: write/read/write/read fixed-point oracle + exhaustive atom/bond typing table"
@@ -271,6 +271,26 @@ def run_rand(spec, ctx):
                     ctx.violation(f"{tag}:loads_all-raises:{type(e).__name__}", case=case)
         if not ok:
             continue
+        # ---- the same molecule after a trip through a library file (fields come back as plain values) writes the same
+        # atom-type and bond-type tokens as the original
+        if j % 4 == 1 and cname in ("Molecule", "ConformerEnsemble") and x.n_atoms:
+            try:
+                Lib = ml.MoleculeLibrary if cname == "Molecule" else ml.ConformerLibrary
+                lp = ctx.tmp / f"trip{j}.{'mlib' if cname == 'Molecule' else 'clib'}"
+                lib = Lib(lp, readonly=False, overwrite=True)
+                with lib.writing():
+                    lib["x"] = x
+                with lib.reading():
+                    xl = lib["x"]
+                lp.unlink()
+                ctx.count("library-trip.type-tokens-compared")
+                t0, t1 = type_tokens(text1), type_tokens(xl.dumps_mol2())
+                if t0 != t1:
+                    i = next((i for i, (a, b) in enumerate(zip(t0, t1)) if a != b), None)
+                    ctx.violation(f"{tag}:type-tokens-differ-after-library-trip", case=case, index=i,
+                                  original=t0[i] if i is not None else len(t0), after_trip=t1[i] if i is not None else len(t1))
+            except Exception as e:  # noqa
+                ctx.violation(f"{tag}:library-trip-raises:{type(e).__name__}", case=case, err=repr(e)[:200])
         # ---- reading the same text again after the caller edited the first result gives the text's content again
         if j % 3 == 0:
             s_first = snap(y)
@@ -312,6 +332,21 @@ def norm_text(t):
     import re
 
     return re.sub(r"(?<![\w.])-(0\.0+)(?![\d])", r"\1", t)
+
+
+def type_tokens(text):
+    """atom-type column of the ATOM lines and type column of the BOND lines of a mol2 text"""
+    out, sect = [], None
+    for ln in text.splitlines():
+        if ln.startswith("@<TRIPOS>"):
+            sect = ln[9:].strip()
+            continue
+        t = ln.split()
+        if sect == "ATOM" and len(t) >= 6:
+            out.append(("a", t[5]))
+        elif sect == "BOND" and len(t) >= 4:
+            out.append(("b", t[3]))
+    return out
 
 
 def classify_line_diff(a, b):
